@@ -1,5 +1,74 @@
-(* C02 placeholder *)
-From Connectome Require Import Values NameSet NameLevel.
-Theorem C02_placeholder : True.
-Proof. exact I. Qed.
-Print Assumptions C02_placeholder.
+(* C02 — field resolution across layers: define, inherit, drop - never a stale field. *)
+From Connectome Require Import Values NameSet AntiSetGen MiscGen NameLevel NameFacts.
+From Connectome Require Bag.
+Local Open Scope list_scope.
+
+(* The pipeline after `l >> r` exposes exactly: the fields r defines, with l's outputs substituted for r's inputs
+   (a name l inherits from above stays a raw input, anything else is MISSING); plus the outputs of l that r does not
+   define and either inherits (list, True, or everything but __exclude__: the regenerated AntiSet algebra) or that are
+   persistent in l.  Any other earlier field is gone. *)
+Theorem C02_define_inherit_drop :
+  forall l r n,
+  alookup (b_outs (compose l r)) n =
+  match alookup (b_outs r) n with
+  | Some e => Some (xsubst (env_of l r) e)
+  | None => if ns_mem n (b_virt r) || lmem n (b_pers l) then alookup (b_outs l) n else None
+  end.
+Proof. exact compose_lookup. Qed.
+Print Assumptions C02_define_inherit_drop.
+
+(* never a stale field: a name the last layer neither defines nor inherits (and that is not persistent) is not served *)
+Theorem C02_never_stale :
+  forall l r n, alookup (b_outs r) n = None -> ns_mem n (b_virt r) = false -> lmem n (b_pers l) = false ->
+  alookup (b_outs (compose l r)) n = None /\ ~ ns_in n (b_virt (compose l r)).
+Proof. exact compose_stale. Qed.
+Print Assumptions C02_never_stale.
+
+(* a name inherited by every layer and defined by none is served as the raw input: the virtual sets intersect *)
+Theorem C02_raw_input : forall l r x, ns_in x (b_virt (compose l r)) <-> ns_in x (b_virt l) /\ ns_in x (b_virt r).
+Proof. exact compose_virtual. Qed.
+Print Assumptions C02_raw_input.
+
+(* the regenerated AntiSet operators are intersection, difference, union on co-finite sets (membership laws) *)
+Theorem C02_antiset_laws :
+  (forall e o x, ns_in x (as_and e o) <-> ns_in x (Co e) /\ ns_in x o) /\
+  (forall e o x, ns_in x (as_sub e o) <-> ns_in x (Co e) /\ ~ ns_in x o) /\
+  (forall e o x, ns_in x (as_or e o) <-> ns_in x (Co e) \/ ns_in x o) /\
+  (forall e o x, ns_in x (as_rsub e o) <-> ns_in x o /\ ~ ns_in x (Co e)) /\
+  (forall e x, as_contains e x = true <-> ns_in x (Co e)).
+Proof.
+  split; [exact as_and_spec|]. split; [exact as_sub_spec|]. split; [exact as_or_spec|]. split; [exact as_rsub_spec|exact as_contains_spec].
+Qed.
+Print Assumptions C02_antiset_laws.
+
+(* at graph level (nodes with identities, labelled edges): connect_bags is substitution of the left outputs for the right
+   inputs, for arbitrary fresh clone functions and independently of the order of the edges (Python set iteration) *)
+Theorem C02_connect_is_substitution :
+  forall (c1 c2 : Bag.nd -> Bag.nd) (l r : Bag.bag),
+  (forall n, List.In n (Bag.nodes l) -> List.In n (Bag.nodes r) -> False) ->            (* freeze(): disjoint node sets *)
+  (forall n, ~ List.In (c1 n) (Bag.nodes l) /\ ~ List.In (c1 n) (Bag.nodes r)) ->       (* clones are fresh nodes *)
+  (forall n, ~ List.In (c2 n) (Bag.nodes l) /\ ~ List.In (c2 n) (Bag.nodes r)) ->
+  (forall n, snd (c1 n) = snd n) ->                                                      (* a clone keeps the name *)
+  (forall e, List.In e (Bag.edges r) -> ~ List.In (Bag.bout e) (Bag.inputs r)) ->       (* inputs are leaves (normalize_bag 1a) *)
+  forall envl : String.string -> Bag.expr,
+  (forall lo, List.In lo (Bag.outputs l) -> Bag.Den l lo (envl (snd lo))) ->
+  (forall ro e, List.In ro (Bag.outputs r) -> Bag.Den r ro e ->
+     Bag.Den (Bag.connect c1 c2 l r) ro (Bag.subst (Bag.env l envl) e)) /\
+  (forall lo, List.In lo (Bag.pass l r) -> Bag.Den (Bag.connect c1 c2 l r) (c2 lo) (envl (snd lo))).
+Proof. exact Bag.connect_is_substitution. Qed.
+Print Assumptions C02_connect_is_substitution.
+
+Theorem C02_signature_rule : signature_rule = "used inputs sorted by name".
+Proof. reflexivity. Qed.
+Print Assumptions C02_signature_rule.
+
+Example C02_example :
+  let src := SLayer {| l_defs := [("image", ("load", ["id"])); ("ids", ("ids", []))]; l_params := []; l_inherit := Fin [];
+                       l_optional := []; l_persistent := ["id"; "ids"]; l_cache := false |} in
+  let zoom := SLayer {| l_defs := [("image", ("zoom", ["image"; "_s"]))]; l_params := [("_s", ("scale", []))]; l_inherit := Fin ["mask"];
+                        l_optional := []; l_persistent := []; l_cache := false |} in
+  let b := stack_bag [src; zoom] in
+  bag_outcome b = Fields ["image"; "ids"; "id"] /\
+  alookup (b_outs b) "image" = Some (XFn "zoom" [XFn "load" [XIn "id"]; XFn "scale" []]).
+Proof. vm_compute. auto. Qed.
+Print Assumptions C02_example.
